@@ -29,6 +29,7 @@ CONSTANTS
     HookMode,      \* "none" | "ok" | "panic_start" | "panic_end"
     PvSet,         \* server declares a protocol version
     Probes,        \* calls offered after the first one (what a failed call leaves behind shows here)
+    Hang,          \* TRUE: sessions may end with a call whose response the client never reads
     DrainOnRefusal \* TRUE: parameter-mismatch / version-gate exits of a stream call drain the
                    \* client's input stream (the fixed design); FALSE: the code before the fix
 
@@ -174,6 +175,18 @@ CloseConn ==
     /\ closed' = TRUE
     /\ UNCHANGED <<pc, inq, cur, out, ix, tx, herr, jr, hk, ncalls>>
     /\ Silent
+
+(* A client that sends a call and closes its read end before the response: every write of the  *)
+(* response fails, the serve loop ends.  Which write fails first (header, a log, a data batch)  *)
+(* and how far the handler gets depend on buffering, so this one step abstracts all of them;    *)
+(* what C37 demands regardless is that whatever dispatch was started is ended exactly once      *)
+(* (hookbal), and C03 that the server ends the connection without a panic (ended).              *)
+Hangup(c) ==
+    /\ Hang /\ pc = "read" /\ inq = <<>> /\ ~closed /\ ncalls < MaxCalls
+    /\ (Mode = "tree") => Len(hist) < Depth - 1
+    /\ ncalls' = ncalls + 1 /\ closed' = TRUE /\ pc' = "dead"
+    /\ UNCHANGED <<inq, cur, out, ix, tx, herr, jr, hk>>
+    /\ Record([a |-> "Hangup", args |-> c, exp |-> [hookbal |-> TRUE, ended |-> "clean"]])
 
 --------------------------------------------------------------------------
 (* Server.  Finish(...) completes the current call: the response, the      *)
@@ -405,8 +418,8 @@ Server == ReadRequest_OK \/ ReadRequest_RpcError \/ ReadRequest_EOF \/ ReadReque
 
 \* the first call of a session is drawn from Calls, every later one from Probes (membership
 \* tests against these large sets are avoided: TLC re-enumerates them per test)
-Next == \/ (ncalls = 0 /\ \E c \in Calls : Call(c))
-        \/ (ncalls > 0 /\ \E c \in Probes : Call(c))
+Next == \/ (ncalls = 0 /\ \E c \in Calls : Call(c) \/ Hangup(c))
+        \/ (ncalls > 0 /\ \E c \in Probes : Call(c) \/ Hangup(c))
         \/ CloseConn \/ Server
 
 Spec == Init /\ [][Next]_vars
